@@ -147,6 +147,12 @@ Definition cmd_proxy_negotiate (args : list sx) : sx :=
   let script := map (fun s => match un_step s with StRead _ r => r | _ => RExc end) (un_L (nth_sx args 0)) in
   A (match negotiate script px_init with PxTunnel => 0 | PxFail => 1 | PxBlocked => 2 end).
 
+(* (33 (recv steps)) -> the trace of the whole attempt through the proxy (passive application, nothing after Connected) *)
+Definition cmd_proxy_run (args : list sx) : sx :=
+  let script := map (fun s => match un_step s with StRead _ r => r | _ => RExc end) (un_L (nth_sx args 0)) in
+  let cf := {| c_poll := 5120; c_ping_rate := 0; c_ping_timeout := None; c_auto_pong := true; c_close_timeout := None; c_accept := [] |} in
+  L (map sx_titem (rev (k_tr (run_via_proxy cf (fun _ => []) (init [] [] [] []) script [])))).
+
 (* (40 tls (records...)) -> (chunk sizes ...) *)
 Definition cmd_drain (args : list sx) : sx :=
   let t := {| t_tls := negb (un_N (nth_sx args 0) =? 0); t_readahead := un_N (nth_sx args 0) =? 2;
@@ -185,6 +191,7 @@ Definition run_sx (req : sx) : sx :=
   | L (A 30 :: args) => cmd_request args
   | L (A 31 :: args) => cmd_proxy_request args
   | L (A 32 :: args) => cmd_proxy_negotiate args
+  | L (A 33 :: args) => cmd_proxy_run args
   | L (A 40 :: args) => cmd_drain args
   | L (A 50 :: args) => cmd_conc args
   | _ => L [A 998]
